@@ -118,6 +118,32 @@ def long_session(ctx: Ctx, n_sends, seed=0):
     return s, vec, head
 
 
+def late_rehandshake(ctx: Ctx, n_sends, seed=0):
+    """A connection that has carried more than 4096 packets, THEN the 12 h expiry (and an explicit authenticate): the handshake requests continue the
+    counter like any packet, and the session goes on under the new key."""
+    s = sched.Session(version=3, retries=3, seed=seed)
+    s.frame = b"\xaa\x01"
+    try:
+        s.call_auth("good")
+        s.settle()
+        for _ in range(n_sends):
+            s.call_send()
+            if not s.parked:
+                break
+            s.deliver(0)
+        s.jumpauth()
+        s.call_send()
+        s.settle()
+        s.call_auth("good")
+        s.settle()
+        for _ in range(3):
+            s.call_send()
+            s.settle()
+    finally:
+        s.close()
+    return {"steps": s.steps, "events": s.trace, "stuck": None}
+
+
 def aged_sessions(ctx: Ctx):
     """The 12 h key lifetime runs from the accepted handshake: sessions kept ACTIVE (traffic every 6 h) must re-handshake all the same."""
     from .. import sched
@@ -126,9 +152,10 @@ def aged_sessions(ctx: Ctx):
              ["auth", "half", "send", "send", "half", "send", "half", "send", "half", "send"],
              ["auth", "send", "half", "auth", "half", "send", "half", "send"],
              ["auth", "half", "close", "send", "half", "send", "half", "send"],
-             ["auth", "half", "send", "half", "auth", "send", "half", "send", "half", "send"]]
+             ["auth", "half", "send", "half", "auth", "send", "half", "send", "half", "send"],
+             ["auth", "send", "authbad", "send", "close", "send", "send"], ["auth", "authbad", "full", "send", "send"]]
     for _ in range(ctx.pick(12, 200)):
-        plans.append(["auth"] + [rng.choice(["send", "send", "half", "half", "auth", "close", "full"]) for _ in range(rng.randint(4, 12))] + ["send"])
+        plans.append(["auth"] + [rng.choice(["send", "send", "half", "half", "auth", "authbad", "close", "full"]) for _ in range(rng.randint(4, 12))] + ["send"])
     nplain = len(plans)
     # ... and with a maximum connection lifetime configured (and configured AGAIN while the connection exists): it runs from the connection's establishment
     plans += [["auth", "send", "setlife", "life", "send", "send"], ["auth", "setlife", "send", "setlife", "life", "send"],
@@ -142,6 +169,9 @@ def aged_sessions(ctx: Ctx):
             for a in pl:
                 if a == "auth":
                     s.call_auth("good")
+                    s.settle()
+                elif a == "authbad":
+                    s.call_auth("bad")          # credentials the unit does not know, presented on whatever session exists
                     s.settle()
                 elif a == "send":
                     s.call_send()
@@ -204,6 +234,8 @@ def run(ctx: Ctx) -> int:
     # ... and the first part of it, event by event, through the full monitor (crosses the 12-bit wrap)
     cut = head + 4 * ctx.pick(4200, 9000)
     session.validate(ctx, [{"events": s.trace[:cut], "steps": s.steps}], ver=3, retries=3, name="C07_longhead", what="long session (first part)", conformance=False)
+    late = late_rehandshake(ctx, ctx.pick(4150, 9000), seed=ctx.seed + 5)
+    session.validate(ctx, [late], ver=3, retries=3, name="C07_late_rehandshake", what="re-handshake on a connection that has carried more than 4096 packets", conformance=False)
     ctx.extra["long_session"] = {"sends": n, "packets": len(vec["ctrs"]), "max_counter": max(vec["ctrs"]), "wraps": sum(1 for a in vec["ctrs"] if a == 0) - 1}
     ctx.sample({"scenario": [[e.get("e"), e.get("t", e.get("op", e.get("m", ""))), e.get("reply", e.get("r", ""))] for st in scn_sim[0] for e in st][:40]})
     ctx.sample({"walk_events": walks[0]["events"][:12]})
